@@ -50,6 +50,19 @@ Definition tread_handle (cs_msize count avail : N) : sreply :=
     else if cs_msize <? c then SPanic                              (* dataBuf[:count] beyond the buffer *)
     else SData (N.min c avail).
 
+(** tread.handle on an xattr fid (Txattrwalk bound it to a value of [vlen] bytes): Count 0 is only
+    accepted for an empty value, offset+Count (the unclamped Count) must lie within the value, then
+    copy(dataBuf[:count], buf[Offset:]) with the clamped count *)
+Definition txread_handle (cs_msize count off vlen : N) : sreply :=
+  if p9_maximumLength <? count then SRlerror
+  else
+    let c := N.min count (max_reply_payload cs_msize) in
+    if cs_msize =? 0 then SPanic
+    else if count =? 0 then (if vlen =? 0 then SData 0 else SRlerror)      (* EINVAL *)
+    else if vlen <? off + count then SRlerror                               (* EINVAL *)
+    else if cs_msize <? c then SPanic                                       (* dataBuf[:count] *)
+    else SData (N.min c (vlen - off)).
+
 (** rreaddir.encode: entries are appended while the running total stays <= Count;
     [sizes] = encoded size of each Dirent the backend returned *)
 Fixpoint rreaddir_payload (count cum : N) (sizes : list N) : N :=
